@@ -89,6 +89,7 @@ def jobs(tier, seed):
         "two-files": ([F([S(1), S(1)]), F([S(1)])], {"stop": "sym", "out_dom": D}),
         "two-files-unsorted": ([F([S(1), S(1)]), F([S(1)])], {"out_dom": D, "filenames": ["zeta.feature", "alpha.feature"]}),
         "rules": ([F([S(1), R([S(1), S(1)]), R([S(1)])])], {"out_dom": D}),
+        "rules-only": ([F([R([S(1), O(1, [(2, [])])]), R([S(1)])])], {"out_dom": D}),       # no scenario directly under the feature
         "outline": ([F([O(1, [(2, []), (1, [])]), S(1)])], {"stop": "sym", "out_dom": D}),
         "outline-empty-examples": ([F([O(1, [(2, []), (0, [])]), S(1)])], {"out_dom": D}),
         "same-names": ([F([S(1, name="Happy path"), R([S(1, name="Happy path"), S(1)]), R([O(1, [(1, [])], name="Happy path")]),
